@@ -91,7 +91,7 @@ def resolve(m, s, frags, depth=0):
         if f[0] == 'lit': out.append(f[1])
         elif f[0] == 'var':
             # ${NAME} is the [Variables] entry; a name [Variables] does not define is an option of the section the text belongs to
-            src = [e for e in secs.get('Variables', []) if e['key'] == ('opt', f[1])] or [e for e in secs.get(sc.sect_name(s), []) if e['key'] == ('opt', f[1])]
+            src = [e for e in secs.get('Variables', []) if e['key'] == ('opt', f[1])] or [e for e in secs.get(sc.sect_name(s), []) if e['key'][0] in ('opt', 'sp') and len(e['key']) == 2 and e['key'][1] == f[1]]
             out.append(resolve(m, s, src[0]['frags'], depth + 1))
         else:
             src = [e for e in secs[sc.sect_name(f[1])] if tuple(e['key']) == tuple(f[2])]
@@ -119,6 +119,24 @@ def corpus():
         have = {e['key'][1] for e in vs[0][1]}
         for n in names:
             if n not in have: vs[0][1].append({'key': ('opt', n), 'frags': [('lit', '7')], 'val': None})
+        out.append({'model': m})
+    # the same bare ${NAME} written in two sections, NAME not a variable: in each section it is that section's own entry NAME
+    for k in range(2):
+        g = random.Random(1520 + k)
+        for t in range(40):
+            base = sc.gen_model(random.Random(1520 + k + 100 * t), kind='eam')
+            emb = [es for s_, es in base['sections'] if s_[0] == 'EAM-Embed'][0]; den = [es for s_, es in base['sections'] if s_[0] == 'EAM-Density'][0]
+            common = [sp for sp in [e['key'][1] for e in emb] if sp in [e['key'][1] for e in den]]
+            if len(emb) >= 2 and len(den) >= 2 and common: break
+        else: continue
+        m = copy.deepcopy(base)
+        for s_, es in m['sections']:
+            for e in es: e['frags'] = [('lit', e['val'])]
+        a = common[0]
+        for sec in ('EAM-Embed', 'EAM-Density'):
+            es = [es for s_, es in m['sections'] if s_[0] == sec][0]
+            src = [e for e in es if e['key'][1] == a][0]; dst = [e for e in es if e['key'][1] != a][0]
+            dst['frags'] = [('var', a)]; dst['val'] = src['val']
         out.append({'model': m})
     return out
 
